@@ -193,6 +193,27 @@ def run(ctx):
                           "class": cl.keys[i], "value": values.render(a)[:2000]})
     def same(x, y):
         return values.render(values.abstract(x)) == values.render(values.abstract(y))
+    # bytes a *peer* would send for the same values (every tagged field sent explicitly, explicit nulls
+    # included — `Spec.encForeign`): decoding them must not depend on history either
+    import dataclasses as _dcf
+    tagged_n = [n for n, (i, a, o) in enumerate(insts)
+                if cl.cls(i).__flexible__ and any("tag" in f.metadata for f in _dcf.fields(cl.cls(i)))]
+    extra_cls = [i for i in range(len(cl)) if any("tag" in f.metadata and f.default is None for f in _dcf.fields(cl.cls(i)))]
+    for i, a, obj in codec.gen_instances(cl, extra_cls[:: max(1, len(extra_cls) // 6)][:6], 1, rng, big_strings=False)[:12]:
+        # tagged nullable fields at None (their default), so that the peer's explicit form is a null
+        vals = [("N",) if ("tag" in f.metadata and f.default is None) else x for f, x in zip(_dcf.fields(cl.cls(i)), a[1])]
+        a2 = ("E", vals)
+        try:
+            insts.append((i, a2, values.build(a2, cl.cls(i))))
+            refs[len(insts) - 1] = ref_bytes(cl.cls(i), insts[-1][2])
+            tagged_n.append(len(insts) - 1)
+        except Exception:  # noqa: BLE001
+            pass
+    fl_lines = [f"foreign {insts[n][0]} 1 0 {values.render(insts[n][1])}" for n in tagged_n]
+    foreign = {}
+    for n, r in zip(tagged_n, driver.run_parallel(fl_lines) if fl_lines else []):
+        if r.startswith("ok"):
+            foreign[n] = values.unhex_tok(r.split()[1])
     nh = 120 if thorough else 30
     only_threads = os.environ.get("C19_ONLY_THREADS") == "1"     # (diagnostic switch, see DESIGN §10.4)
     for h in range(0 if only_threads else nh):
@@ -200,6 +221,8 @@ def run(ctx):
         ops = []
         for n, (i, a, obj) in enumerate(insts):
             ops += [("mkw", n), ("mkr", n), ("enc", n), ("dec", n), ("enc", n)]
+            if n in foreign:
+                ops += [("decf", n), ("decf", n)]
         rng.shuffle(ops)
         ops = ops[: rng.randint(10, len(ops))]
         for op, n in ops:
@@ -210,6 +233,16 @@ def run(ctx):
                 entity_writer(c)
             elif op == "mkr":
                 entity_reader(c); entity_reader(c, nullable=True)
+            elif op == "decf":
+                try:
+                    v = entity_reader(c)(io.BytesIO(foreign[n]))
+                    okf = same(v, obj)
+                except Exception as e:  # noqa: BLE001
+                    v, okf = repr(e), False
+                if not okf:
+                    fails.append({"what": "decoding a peer's explicit encoding depends on the history of created/used readers and writers",
+                                  "class": cl.keys[i], "result": str(v)[:200],
+                                  "history": [(o, cl.keys[insts[m][0]]) for o, m in ops][:40]})
             elif op == "enc":
                 b = io.BytesIO(); entity_writer(c)(b, obj)
                 if b.getvalue() != refs[n]:
